@@ -20,6 +20,9 @@ GRAPHS = {
     "diamond": ({"a.facto": (["c.facto"], "a"), "b.facto": (["c.facto"], "b"), "c.facto": ([], "c")}, ["a.facto", "b.facto"], "abc"),
     "twice": ({"a.facto": ([], "a")}, ["a.facto", "a.facto"], "a"),
     "cycle": ({"a.facto": (["b.facto"], "a"), "b.facto": (["a.facto"], "b")}, ["a.facto"], "ab"),
+    # cycles that pass through the ROOT file (the file given to the compiler)
+    "cycle-root": ({"a.facto": (["main.facto"], "a")}, ["a.facto"], "a"),
+    "cycle-root-3": ({"a.facto": (["b.facto"], "a"), "b.facto": (["main.facto"], "b")}, ["a.facto"], "ab"),
     "self": ({"a.facto": (["a.facto"], "a")}, ["a.facto"], "a"),
     "subdir": ({"sub/a.facto": (["b.facto"], "a"), "sub/b.facto": ([], "b")}, ["sub/a.facto"], "ab"),
     "subdir-up": ({"sub/a.facto": ([], "a"), "c.facto": (["sub/a.facto"], "c")}, ["c.facto"], "ac"),
@@ -134,6 +137,19 @@ LIB = {
     "div_floor": (2, [()], L_divfloor),
     "mod_positive": (2, [()], L_modpos),
 }
+# library functions called from user wrapper functions whose parameter names collide with the library's own
+# (a, b, x, value, low, high, t): name -> (wrapper source, call, number of inputs, formula over the inputs x, y[, a])
+WRAPPED = {
+    "limit": ("func limit(Signal x, Signal a, Signal b) {\n    return min(max(x, a), b);\n}\n", "limit(x, y, a)", 3, lambda x, y, a: min(max(x, y), a)),
+    "span": ("func span(Signal b, Signal a) {\n    return max(a, b) - min(b, a);\n}\n", "span(x, y)", 2, lambda x, y: abs(x - y)),
+    "absdiff": ("func absdiff(Signal value, Signal x) {\n    return abs(x - value);\n}\n", "absdiff(x, y)", 2, lambda x, y: L_abs(y - x)),
+    "clamp-plus": ("func cp(Signal low, Signal x) {\n    return clamp(x, -5, 5) + low;\n}\n", "cp(x, y)", 2, lambda x, y: max(-5, min(5, y)) + x),
+    "swapped-div": ("func sw(Signal b, Signal a) {\n    return div_floor(b, a);\n}\n", "sw(x, y)", 2, lambda x, y: L_divfloor(x, y)),
+    "swapped-mod": ("func sm(Signal b, Signal a) {\n    return mod_positive(b, a);\n}\n", "sm(x, y)", 2, lambda x, y: L_modpos(x, y)),
+    "bit-of": ("func bit5(Signal pos, Signal value) {\n    return get_bit(value, 5) + pos;\n}\n", "bit5(x, y)", 2, lambda x, y: ((y >> 5) & 1) + x),
+    "two-level": ("func inner(Signal a, Signal b) {\n    return max(b, a) - a;\n}\nfunc outer(Signal b, Signal a) {\n    return inner(b, a) + min(a, b);\n}\n",
+                  "outer(x, y)", 2, lambda x, y: max(y, x) - x + min(y, x)),
+}
 LERP_INTS = [(0, 100), (10, 20), (100, 0), (-50, 50), (7, 7)]
 
 
@@ -141,7 +157,7 @@ class C17(core.Check):
     pid = "C17"
     level = "exploration"
     timeout = 600
-    rule = ("(a) import graphs over generated files (single, no suffix, chain, diamond, same file twice, cycle, self-import, "
+    rule = ("(a) import graphs over generated files (single, no suffix, chain, diamond, same file twice, cycle, cycles through the root file, self-import, "
             "sub-directories, bundled library by bare name and by the documented 'lib/math.facto' form, library + local, files "
             "in a user library directory listed in FACTORIO_IMPORT_PATH that import their siblings) x "
             "working directories {repository root, /, the importer's directory, an empty directory, a directory holding "
@@ -149,7 +165,7 @@ class C17(core.Check):
             "library-only graphs}: the compilation must terminate and its canonical circuit must equal that of the twin "
             "with the files' text pasted in once; (b) every function of lib/math.facto x the full product of 9 boundary "
             "values per Signal parameter and a menu of int-parameter tuples, compared with the documented formula in "
-            "unbounded integers (tuples whose formula leaves int32 are skipped); non-trivial = results vary / imports found")
+            "unbounded integers (tuples whose formula leaves int32 are skipped), and eight user wrapper functions whose parameter names collide with the library's (a, b, x, value, low, pos; swapped order; two levels); non-trivial = results vary / imports found")
     assumptions = ["circuit model fv/sim.py", "documented formulas as written in lib/math.facto's comments",
                    "mod_positive is checked for positive moduli only, clamp for low <= high"]
 
@@ -168,6 +184,8 @@ class C17(core.Check):
                 out.append({"kind": "lib", "fn": fn, "ints": list(it)})
         for it in LERP_INTS:
             out.append({"kind": "lib", "fn": "lerp", "ints": list(it)})
+        for name in WRAPPED:
+            out.append({"kind": "lib", "fn": "wrapped:" + name, "ints": []})
         return out
 
     def run_case(self, case):
@@ -214,6 +232,20 @@ class C17(core.Check):
     def run_lib(self, case):
         fn = case["fn"]
         ints = case["ints"]
+        if fn.startswith("wrapped:"):
+            src, call, nsig, formula = WRAPPED[fn.split(":", 1)[1]]
+            names = ["x", "y", "a"][:nsig]
+            WV = [0, 1, -1, 7, -8, 100, -100] if nsig == 3 else SV
+            stmts = [("text", 'import "math.facto";')] + [gen.INPUT_DECL[i] for i in names] + [("text", src + f"Signal r = {call};")]
+
+            def evaluate_w(v):
+                try:
+                    val = formula(*[v[i] for i in names])
+                except ZeroDivisionError:
+                    need(False)
+                need(fits(val))
+                return {"r": lang.Sig(None, val)}
+            return explore.run_stateless(stmts, names, {n: WV for n in names}, ["r"], {"optimize": True}, evaluate=evaluate_w)
         if fn == "lerp":
             call = f"lerp({ints[0]}, {ints[1]}, x)"
             nsig = 1
